@@ -572,6 +572,34 @@ fn run_parse_case(case: &[String]) -> String {
     format!("{{\"case\":{},\"text\":{},\"result\":{}}}", jstr(head[1]), jstr(&text), jstr(&res))
 }
 
+fn run_runner_case(case: &[String]) -> String {
+    // case runner:<id> <run|eqsat> <r> : a hook changes the e-graph (inserts a term that a rule matches) in round r, the first round in which
+    // apply_rewrites reports no progress (r = 1: nothing matches the start term; r = 2: the start term is rewritten once). Afterwards the rules are applied once more.
+    let head: Vec<&str> = case[0].split_whitespace().collect();
+    let kind = head[2]; let r: usize = head[3].parse().unwrap();
+    let start = if r == 1 { "(var $0)" } else { "(u (var $0))" };
+    let rules = || -> Vec<Rewrite<Lb, ()>> { vec![Rewrite::new("strip", "(u ?a)", "?a")] };
+    let res = catch_unwind(AssertUnwindSafe(|| {
+        let count = std::rc::Rc::new(std::cell::Cell::new(0usize));
+        let c2 = count.clone();
+        if kind == "run" {
+            let mut runner: Runner<Lb, (), (), String> = Runner::new(()).with_expr(&RecExpr::parse(start).unwrap())
+                .with_hook(move |rn: &mut Runner<Lb, (), (), String>| { c2.set(c2.get() + 1); if c2.get() == r { rn.egraph.add_expr(RecExpr::parse("(u (j $0 $1))").unwrap()); } Ok(()) });
+            let rep = runner.run(&rules());
+            let again = apply_rewrites(&mut runner.egraph, &rules());
+            format!("stop={:?} iterations={} hook_calls={} rules_change_again={}", rep.stop_reason, rep.iterations, count.get(), again)
+        } else {
+            let mut eg: EGraph<Lb, ()> = EGraph::new(());
+            eg.add_expr(RecExpr::parse(start).unwrap());
+            let rep = run_eqsat(&mut eg, rules(), 10, 1000, move |eg: &mut EGraph<Lb, ()>| { c2.set(c2.get() + 1); if c2.get() == r { eg.add_expr(RecExpr::parse("(u (j $0 $1))").unwrap()); } Ok(()) });
+            let again = apply_rewrites(&mut eg, &rules());
+            format!("stop={:?} iterations={} hook_calls={} rules_change_again={}", rep.stop_reason, rep.iterations, count.get(), again)
+        }
+    }));
+    let out = match res { Ok(s) => s, Err(_) => "panic".to_string() };
+    format!("{{\"case\":{},\"result\":{}}}", jstr(head[1]), jstr(&out))
+}
+
 fn run_slotmap_case(case: &[String]) -> String {
     // maps are named by single tokens; slots are given as u32 values. every line yields one result string.
     let head: Vec<&str> = case[0].split_whitespace().collect();
@@ -746,6 +774,7 @@ fn run_case(case: &[String]) -> String {
     if case[0].starts_with("case slotmap:") { return run_slotmap_case(case); }
     if case[0].starts_with("case slot:") { return run_slot_case(case); }
     if case[0].starts_with("case parse:") { return run_parse_case(case); }
+    if case[0].starts_with("case runner:") { return run_runner_case(case); }
     // case <id> <lang> <analysis> <f0> <named_max> ; names v0 v1 ... ; ops...
     let head: Vec<&str> = case[0].split_whitespace().collect();
     let (id, lang, analysis, f0, named): (&str, &str, &str, u32, u32) = (head[1], head[2], head[3], head[4].parse().unwrap(), head[5].parse().unwrap());
